@@ -376,15 +376,19 @@ class ProductState:
         ).reshape((new_dims, new_dims))
         self.state = ps / jnp.trace(ps)
         other_outcomes = {}
-        if destructive:
+        # Custom states are never destroyed, they keep their post measurement state
+        from photon_weave.state.custom_state import CustomState
+
+        destroyed = [s for s in states if not isinstance(s, CustomState)]
+        if destructive and len(destroyed) > 0:
             # Get correct Composite Envelope
             if isinstance(
                 CompositeEnvelope._instances[self.container.composite_uid], list
             ):
                 other_outcomes = CompositeEnvelope._instances[
                     self.container.composite_uid
-                ][0].measure(*states)
-                for s in states:
+                ][0].measure(*destroyed)
+                for s in destroyed:
                     del other_outcomes[s]
         if C.contractions:
             self.contract()
